@@ -214,6 +214,23 @@ func (lv *LeafVariants) GetHighestPrecedence(onlyNewOrUpdated bool, includeDefau
 		}
 	}
 
+	// if the actual view is requested (not just what is new or updated), entries that are marked for
+	// deletion do not count, they will be gone. The value in effect is the highest of the remaining entries.
+	if !onlyNewOrUpdated && checkExistsAndDeleteFlagSet(highest) {
+		highest = nil
+		for _, e := range lv.les {
+			if e.GetDeleteFlag() {
+				continue
+			}
+			if highest == nil || highest.Priority() > e.Priority() {
+				highest = e
+			}
+		}
+		if highest == nil {
+			return nil
+		}
+	}
+
 	// do not include defaults loaded at validation time
 	if checkNotDefaultAllowedButIsDefaultOwner(highest, includeDefaults) {
 		return nil
